@@ -1498,6 +1498,11 @@ BTree_findRangeEnd(BTree *self, PyObject *keyarg, int low, int exclude_equal,
     int copied = 1;
 
     COPY_KEY_FROM_ARG(key, keyarg, copied);
+#ifdef KEY_CHECK_ON_SET
+    /* A bound that could never be a key is unusable (TypeError). */
+    if (copied && !KEY_CHECK_ON_SET(keyarg))
+        copied = 0;
+#endif
     UNLESS (copied)
         return -1;
 
